@@ -23,8 +23,10 @@ mod instrumented {
         fn before_lock(&self, mutex: usize, name: &'static str);
         fn acquired(&self, mutex: usize, name: &'static str);
         fn released(&self, mutex: usize, name: &'static str);
-        /// The thread is about to wait on `condvar`, releasing `mutex`.
-        fn wait_begin(&self, condvar: usize, mutex: usize);
+        /// The thread waits on `condvar`, having released `mutex`. An observer that schedules the
+        /// threads itself blocks here until the condition variable is notified and returns `true`;
+        /// otherwise (`false`) the wrapper waits on the real condition variable.
+        fn wait_begin(&self, condvar: usize, mutex: usize) -> bool;
         /// The thread was woken up and holds `mutex` again.
         fn wait_end(&self, condvar: usize, mutex: usize);
         fn notified(&self, condvar: usize);
@@ -49,7 +51,7 @@ mod instrumented {
 
     pub struct MutexGuard<'a, T> {
         inner: Option<std::sync::MutexGuard<'a, T>>,
-        id: usize,
+        mutex: &'a Mutex<T>,
     }
 
     impl<T> Mutex<T> {
@@ -74,8 +76,8 @@ mod instrumented {
                 o.acquired(self.id, name);
             }
             match res {
-                Ok(g) => Ok(MutexGuard { inner: Some(g), id: self.id }),
-                Err(p) => Err(PoisonError::new(MutexGuard { inner: Some(p.into_inner()), id: self.id })),
+                Ok(g) => Ok(MutexGuard { inner: Some(g), mutex: self }),
+                Err(p) => Err(PoisonError::new(MutexGuard { inner: Some(p.into_inner()), mutex: self })),
             }
         }
     }
@@ -98,7 +100,7 @@ mod instrumented {
             if let Some(g) = self.inner.take() {
                 drop(g);
                 if let Some(o) = observer() {
-                    o.released(self.id, std::any::type_name::<T>());
+                    o.released(self.mutex.id, std::any::type_name::<T>());
                 }
             }
         }
@@ -125,18 +127,37 @@ mod instrumented {
         }
 
         pub fn wait<'a, T>(&self, mut guard: MutexGuard<'a, T>) -> LockResult<MutexGuard<'a, T>> {
-            let id = guard.id;
+            let mutex = guard.mutex;
             let g = guard.inner.take().unwrap();
-            if let Some(o) = observer() {
-                o.wait_begin(self.id, id);
-            }
-            let res = self.inner.wait(g);
-            if let Some(o) = observer() {
-                o.wait_end(self.id, id);
-            }
-            match res {
-                Ok(g) => Ok(MutexGuard { inner: Some(g), id }),
-                Err(p) => Err(PoisonError::new(MutexGuard { inner: Some(p.into_inner()), id })),
+            match observer() {
+                None => match self.inner.wait(g) {
+                    Ok(g) => Ok(MutexGuard { inner: Some(g), mutex }),
+                    Err(p) => Err(PoisonError::new(MutexGuard { inner: Some(p.into_inner()), mutex })),
+                },
+                Some(o) => {
+                    // Probe first: a scheduling observer takes over the blocking (the mutex is
+                    // released, then re-acquired through the observed `lock`).
+                    let name = std::any::type_name::<T>();
+                    drop(g);
+                    o.released(mutex.id, name);
+                    if o.wait_begin(self.id, mutex.id) {
+                        o.wait_end(self.id, mutex.id);
+                        mutex.lock()
+                    } else {
+                        // passive observer: wait on the real condition variable
+                        let g = match mutex.inner.lock() {
+                            Ok(g) => g,
+                            Err(p) => p.into_inner(),
+                        };
+                        let res = self.inner.wait(g);
+                        o.wait_end(self.id, mutex.id);
+                        o.acquired(mutex.id, name);
+                        match res {
+                            Ok(g) => Ok(MutexGuard { inner: Some(g), mutex }),
+                            Err(p) => Err(PoisonError::new(MutexGuard { inner: Some(p.into_inner()), mutex })),
+                        }
+                    }
+                }
             }
         }
 
